@@ -283,7 +283,7 @@ def run(chk):
             want = ceval(e)
         except Undefined:
             continue
-        if not (0 <= want <= 255) or "/" in show(e) or "*" in show(e):
+        if not (0 <= want <= 255):
             continue
         src = "unsigned char v;\nvoid main() { v = %s; }\n" % show(e)
         r = h.compile(src, 1)
@@ -302,6 +302,30 @@ def run(chk):
             if _re.search(r"[~-]\s*[(~!-]", show(e)):
                 sig = "folded-complement-width"
             chk.fail(sig, "`v = %s;` stores %d, C says %d" % (show(e), got, want), {"source": src, "stored": got, "C": want})
+    # ---- products and quotients of two constants folded by the statement generator: both signs of both operands,
+    #      alone and under another operator (C truncates the quotient toward zero) ----
+    def cdiv(a, b):
+        q = abs(a) // abs(b)
+        return q if (a >= 0) == (b >= 0) else -q
+    for a in (7, -7, 8, -8, 1, 0, 100, -100, 255, -1):
+        for b in (2, -2, 3, -3, 1, -1, 7, 16):
+            for op in "*/":
+                base = cdiv(a, b) if op == "/" else a * b
+                for form, want in (("%s %s %s", base), ("(%s %s %s) + 5", base + 5), ("1 - (%s %s %s)", 1 - base), ("%s %s (%s + 0)", base)):
+                    text = form % (a, op, b)
+                    src = "unsigned char v;\nvoid main() { v = %s; }\n" % text
+                    r = h.compile(src, 1)
+                    chk.case(key=src, nontrivial=True)
+                    chk.count("folded_muldiv_statements")
+                    if r["status"] != "ok":
+                        chk.count("folded_muldiv_" + r["status"]); continue
+                    states, lay = coexec.init_states(r, 1, seed=1)
+                    outs, bad = coexec.run_all(m, "c10", r, states, lay)
+                    if outs is None or not outs[0]["stop"].startswith("done"):
+                        chk.count("folded_unrunnable"); continue
+                    if outs[0]["mem"][0] != want & 0xFF:
+                        chk.fail("folded-muldiv-value", "`v = %s;` stores %d, C says %d" % (text, outs[0]["mem"][0], want & 0xFF),
+                                 {"source": src, "stored": outs[0]["mem"][0], "C": want & 0xFF})
     # ---- comparisons of two constants folded by the statement generator, in every position it accepts them
     #      (plain value, ?:, !, left operand of && / ||), for a < b, a == b, a > b: tools/matrix.py ----
     import matrix, csemx, gen_c
